@@ -269,6 +269,13 @@ def _sigclass(sa, sb):
 
 
 # --------------------------------------------------------------------------------- operators
+def _factors(a):
+    """one factor per element, mixed signs, as the array type of the operand's backend"""
+    if isinstance(a, ak.Array):
+        return ak.Array([2.0, -0.5, 1.5, -3.0, 0.25, 4.0][: len(a)])
+    return np.array([2.0, -0.5, 1.5, -3.0, 0.25, 4.0][: a.shape[0]])
+
+
 def run_operators(res: Result, dim):
     n2 = {2: "rho2", 3: "mag2", 4: "tau2"}[dim]
     nn = {2: "rho", 3: "mag", 4: "tau"}[dim]
@@ -280,6 +287,15 @@ def run_operators(res: Result, dim):
         "neg": (lambda a, b: -a, lambda a, b: a.scale(-1)), "pos": (lambda a, b: +a, lambda a, b: a),
         "abs": (lambda a, b: abs(a), lambda a, b: getattr(a, nn)), "**2": (lambda a, b: a**2, lambda a, b: getattr(a, n2)),
         "**3": (lambda a, b: a**3, lambda a, b: getattr(a, nn) ** 3),
+        "**0.5": (lambda a, b: a**0.5, lambda a, b: getattr(a, nn) ** 0.5), "**-1": (lambda a, b: a**-1, lambda a, b: getattr(a, nn) ** -1),
+        "numpy.power(3)": (lambda a, b: np.power(a, 3), lambda a, b: getattr(a, nn) ** 3),
+        # factors that are not Python scalars, on either side: NumPy scalars, 0-d arrays, and per-element factor arrays
+        "*np.float64": (lambda a, b: a * np.float64(2.5), lambda a, b: a.scale(2.5)), "np.int32*": (lambda a, b: np.int32(3) * a, lambda a, b: a.scale(3)),
+        "*0d": (lambda a, b: a * np.array(2.5), lambda a, b: a.scale(2.5)), "0d*": (lambda a, b: np.array(2.5) * a, lambda a, b: a.scale(2.5)),
+        "*arr": (lambda a, b: a * _factors(a), lambda a, b: a.scale(_factors(a))), "arr*": (lambda a, b: _factors(a) * a, lambda a, b: a.scale(_factors(a))),
+        "/arr": (lambda a, b: a / _factors(a), lambda a, b: a.scale(1.0 / _factors(a))),
+        "numpy.multiply(arr,v)": (lambda a, b: np.multiply(_factors(a), a), lambda a, b: a.scale(_factors(a))), "numpy.multiply(v,arr)": (lambda a, b: np.multiply(a, _factors(a)), lambda a, b: a.scale(_factors(a))),
+        "numpy.divide(v,arr)": (lambda a, b: np.divide(a, _factors(a)), lambda a, b: a.scale(1.0 / _factors(a))),
     }
     for ba, bb in itertools.product(BK, BK):
         for sa in (L.CART[dim], L.SYSTEMS[dim][-1]):
@@ -287,7 +303,9 @@ def run_operators(res: Result, dim):
             for fa, fb in itertools.product(("generic", "momentum"), repeat=2):
                 va, vb = operand(ba, dim, sa, fa, "a"), operand(bb, dim, sb, fb, "b")
                 for name, (f, g) in forms.items():
-                    unary = name in ("*", "r*", "/", "neg", "pos", "abs", "**2", "**3")
+                    unary = name not in ("+", "-", "@", "==", "!=")
+                    if "arr" in name and ba not in ("NP", "AKA"):
+                        continue  # per-element factor arrays belong to the array backends
                     if unary and (bb != ba or fb != fa):
                         continue
                     res.states += 1
